@@ -73,9 +73,8 @@ class AbstractDeme(ABC):
 
     @property
     def centroid(self) -> np.ndarray:
-        if self._centroid is None:
-            self._centroid = compute_centroid(self.current_population)
-        return self._centroid
+        # Not memoised: the current population changes with every metaepoch.
+        return compute_centroid(self.current_population)
 
     @property
     def history(self) -> list[list[Individual]]:
